@@ -134,7 +134,7 @@ RULE_DISP = ("sessions of public-API operations (register_*_hook on classes/NewT
              "and 13 predicates; a case is non-trivial if it has >= 3 operations of >= 2 kinds; distinct = distinct sha1 of the step list")
 
 REGISTRY = {
-    "C01": {"props_file": "Props/C01.v", "files": CORE_CONV + ["Proofs/UnstructProofs.v", "Proofs/ClassRoundtrip.v", "Proofs/ConvRoundtrip.v", "Proofs/ConvCfg.v", "Props/C01.v"],
+    "C01": {"props_file": "Props/C01.v", "files": CORE_CONV + ["Model/TdTemplates.v", "Proofs/TdProofs.v", "Proofs/TdRoundtrip.v", "Proofs/UnstructProofs.v", "Proofs/ClassRoundtrip.v", "Proofs/ConvRoundtrip.v", "Proofs/ConvCfg.v", "Props/C01.v"],
             "run": _conv("C01", 40), "rule": RULE_CONV, "t1_sections": T1_CONV},
     "C03": {"props_file": "Props/C03.v", "files": CORE_CONV + ["Model/ConvEnc.v", "Proofs/UnstructProofs.v", "Proofs/ClassRoundtrip.v", "Proofs/ConvSound.v", "Proofs/ConvPrim.v", "Proofs/ConvRoundtrip.v", "Proofs/ConvEncProofs.v", "Proofs/ConvCfg.v", "Props/C03.v"],
             "run": _conv("C03", 40), "rule": RULE_CONV, "t1_sections": T1_CONV},
@@ -161,8 +161,8 @@ REGISTRY = {
                     "literals); for json additionally the model comparison; per world the user-hook battery: a hook pair registered for an attrs class and for a dataclass, used at top level, "
                     "in a list, inside an attrs class and inside a dataclass, for every format; non-trivial = composite type or class, and every hook check; distinct = sha1 of "
                     "(world, format, type, value)"},
-    "C02": {"props_file": "Props/C02.v", "files": CORE_CONV + ["Proofs/ConvSound.v", "Proofs/ConvCfg.v", "Props/C02.v"], "run": _conv("C02", 40), "rule": RULE_CONV, "t1_sections": T1_CONV},
-    "C04": {"props_file": "Props/C04.v", "files": CORE_TPL + ["Model/Conv.v", "Proofs/UnstructProofs.v", "Proofs/ClassSound.v", "Proofs/ClassRoundtrip.v", "Proofs/ConvAgree.v", "Proofs/ConvCfg.v", "Props/C04.v"], "run": _c04,
+    "C02": {"props_file": "Props/C02.v", "files": CORE_CONV + ["Model/TdTemplates.v", "Proofs/TdProofs.v", "Proofs/ConvSound.v", "Proofs/ConvCfg.v", "Props/C02.v"], "run": _conv("C02", 40), "rule": RULE_CONV, "t1_sections": T1_CONV},
+    "C04": {"props_file": "Props/C04.v", "files": CORE_TPL + ["Model/Conv.v", "Proofs/TdProofs.v", "Proofs/UnstructProofs.v", "Proofs/ClassSound.v", "Proofs/ClassRoundtrip.v", "Proofs/ConvAgree.v", "Proofs/ConvCfg.v", "Props/C04.v"], "run": _c04,
             "rule": RULE_TPL + " ; PLUS the CONV worlds (see C01) extended with Counter / defaultdict / deque and TypedDict positions (oracle only): every structure call is repeated on the same converter class and options with the other validation mode", "t1_sections": ["gen", "converters", "hooks"]},
     "C09": {"props_file": "Props/C09.v", "files": CORE_TPL + ["Proofs/UnstructProofs.v", "Props/C09.v"], "run": _c09, "rule": RULE_TPL, "t1_sections": ["gen"]},
     "C20": {"props_file": "Props/C20.v", "files": ["Model/Base.v", "Model/FieldConv.v", "Props/C20.v"], "run": _c20, "t1_sections": [],
@@ -208,7 +208,7 @@ REGISTRY = {
                     "deriving from a parametrised base (concrete, by the child's TypeVar, with a reused TypeVar name); two parametrisations per class used "
                     "interleaved on one converter; per parametrisation: unstructure, structure, structure of a corrupted payload, each compared with the "
                     "hand-substituted non-generic clone; non-trivial = class with >= 2 attributes; distinct = (class, parametrisation, round)"},
-    "C10": {"props_file": "Props/C10.v", "files": CORE_TPL + ["Model/Tagged.v", "Proofs/TaggedProofs.v", "Props/C10.v"], "run": _c10, "t1_sections": ["gen"],
+    "C10": {"props_file": "Props/C10.v", "files": CORE_TPL + ["Model/Tagged.v", "Proofs/TaggedProofs.v", "Proofs/TdProofs.v", "Props/C10.v"], "run": _c10, "t1_sections": ["gen"],
             "rule": RULE_TPL + " ; PLUS the systematic key-modes battery (attribute kind x key mode x forbid x 21 payloads, no randomness) ; PLUS tagged unions (oracle only): 2-4 members x tag generator x tag name x default member or none x forbid on/off x validation mode; payloads = a member's "
                     "own dict + the tag (known / unknown / missing) + a known set of 0-2 extra keys, key order reversed half of the time, at top level, inside List[U] and inside an attrs class attribute"},
     "C07": {"props_file": "Props/C07.v", "files": CORE_A + ["Props/C07.v"], "run": _c07, "rule": RULE_DISP},
